@@ -1,5 +1,4 @@
-//! C03 — flow versions sort consistently with history (in-process layers i-iii; the real-git layer iv
-//! is explored by the C02 engine and reported under C03 by `c02 --flow`).
+//! C03 — flow versions sort consistently with history (in-process layers i-iii and a real-git layer iv).
 use std::cmp::Ordering;
 
 use rayon::prelude::*;
@@ -167,6 +166,9 @@ fn main() {
         st
     }).reduce(Stats::default, Stats::merge);
 
+    // (iv) real git histories: bounds against the model's nearest final-release tag, and first-parent commit steps
+    let s_git = git_layer(&ctx, quick);
+
     // process conformance slice
     let slice: Vec<&Case> = cases.iter().step_by((cases.len() / 100).max(1)).collect();
     let bad: Vec<(String, String)> = slice.par_iter().filter_map(|c| { let args = argv(c, &sets); let r = zv::run_cli(&args, None); let o = zv::run_bin(&args, None, &[], None); zv::conforms(&r, &o).err().map(|e| (args.join(" "), e)) }).collect();
@@ -176,14 +178,14 @@ fn main() {
     let d = |()| cases.iter().take(600).map(|c| { let mut st = Stats::default(); judge(&ctx, c, &sets, &mut st); st }).fold(Stats::default(), Stats::merge).digest;
     if d(()) != d(()) { machinery_error("determinism replay diverged"); }
 
-    let all = s1.merge(s2).merge(s3).merge(s4.clone());
+    let all = s1.merge(s2).merge(s3).merge(s4.clone()).merge(s_git);
     let mut cov = Coverage::default();
-    cov.states = cases.len() as u64 + chain_jobs.len() as u64 * 7 + all.get("tag_feedback_cases");
+    cov.states = cases.len() as u64 + chain_jobs.len() as u64 * 7 + all.get("tag_feedback_cases") + all.get("git_states");
     cov.transitions = all.get("runs") + all.get("tag_feedback_cases") + all.get("chain_steps");
     cov.evaluations = all.get("runs") + all.get("tag_feedback_cases");
     cov.traces_validated = cov.evaluations;
     cov.distinct_nontrivial = all.get("active_cases");
-    cov.rule = format!("(i) full product final-release tags {:?} x {} branches x distance x dirty flag x post-mode x {} rule sets x hash lengths x --pre-release-label x --post x 11 standard presets x 2 formats through run_flow_pipeline, each output compared by independent comparators (R-SV precedence / standard PEP 440 order) with X.Y.Z and X.Y.(Z+1); (ii) distance chains 0..6 in commit mode for every (tag, branch, rule set, preset, format): strictly increasing where the preset prints post; (iii) every dev-less pre-release output fed back as --tag-version --clean must be reproduced. The real-git layer (iv) is run by the C02 engine. non-trivial = active (dirty or ahead) runs", TAGS.iter().map(|t| t.0).collect::<Vec<_>>(), BRANCHES.len(), sets.len());
+    cov.rule = format!("(i) full product final-release tags {:?} x {} branches x distance x dirty flag x post-mode x {} rule sets x hash lengths x --pre-release-label x --post x 11 standard presets x 2 formats through run_flow_pipeline, each output compared by independent comparators (R-SV precedence / standard PEP 440 order) with X.Y.Z and X.Y.(Z+1); (ii) distance chains 0..6 in commit mode for every (tag, branch, rule set, preset, format): strictly increasing where the preset prints post; (iii) every dev-less pre-release output fed back as --tag-version --clean must be reproduced. (iv) real git: every placement of <= 2 final-release tags on the commits of every explored DAG shape (C02's shape BFS) x HEAD at every branch tip x work-tree states, `zerv flow -C` in both formats bounded by the model's nearest tag, plus a commit step on the checked-out branch that must increase the version. non-trivial = active (dirty or ahead) runs", TAGS.iter().map(|t| t.0).collect::<Vec<_>>(), BRANCHES.len(), sets.len());
     cov.exhaustive = true;
     cov.samples = vec![json!(argv(&cases[cases.len() / 3], &sets)), json!(argv(&cases[cases.len() - 5], &sets))];
     cov.set("clause_counts", all.to_json());
@@ -203,4 +205,97 @@ fn space(quick: bool, sets: &[(&'static str, Vec<Rule>)]) -> Vec<Case> {
         v.push(Case { tag, branch, distance, dirty_flag, mode, rules, hash_len, label, post, preset, fmt });
     }}}}}}}}}}
     v
+}
+
+
+/// layer (iv): real git
+fn git_layer(ctx: &Ctx, quick: bool) -> Stats {
+    use zvharness::gitx::{self, DateMode, Head, Repo, Shape, Tag, WorkTree};
+    for (k, v) in gitx::git_env() { unsafe { std::env::set_var(k, v) }; }
+    let root = gitx::scratch_root();
+    let _ = std::fs::remove_dir_all(&root);
+    std::fs::create_dir_all(&root).unwrap_or_else(|e| machinery_error(&format!("scratch: {e}")));
+    let (all_shapes, _) = gitx::explore_shapes(4, if quick { 1 } else { 2 });
+    let mut seen = std::collections::BTreeSet::new();
+    let shapes: Vec<&Shape> = all_shapes.iter().filter(|s| seen.insert((s.parents.clone(), s.branches.clone()))).filter(|s| !quick || s.parents.len() <= 3 || s.has_merge()).collect();
+    let names = [("v1.0.0", [1u64, 0, 0]), ("v2.0.0", [2, 0, 0])];
+    let st = shapes.par_iter().enumerate().map(|(si, shape)| {
+        let mut st = Stats::default();
+        let n = shape.parents.len();
+        let modes: Vec<DateMode> = if shape.has_merge() { vec![DateMode::Increasing, DateMode::ZigZag] } else { vec![DateMode::Increasing] };
+        for (mi, mode) in modes.iter().enumerate() {
+            let mut repo = Repo::create(&root, &format!("f{si}m{mi}"), shape, &gitx::dates(n, *mode));
+            // placements: v1.0.0 alone on any commit; v1.0.0 and v2.0.0 on any pair of commits
+            let mut labelings: Vec<Vec<Tag>> = (0..n).map(|c| vec![Tag { name: "v1.0.0".into(), target: c, annotated: c % 2 == 1 }]).collect();
+            for a in 0..n { for b in 0..n { labelings.push(vec![Tag { name: "v1.0.0".into(), target: a, annotated: false }, Tag { name: "v2.0.0".into(), target: b, annotated: true }]); } }
+            for tags in &labelings {
+                repo.set_tags(tags);
+                for (b, &tip) in &shape.branches {
+                    let head = Head::Branch(b.clone());
+                    repo.set_head(&head);
+                    let reach = shape.ancestors_or_self(tip);
+                    let tagged: Vec<&Tag> = tags.iter().filter(|t| reach.contains(&t.target)).collect();
+                    let nearest: Vec<&&Tag> = tagged.iter().filter(|t| !tagged.iter().any(|u| u.target != t.target && shape.ancestors_or_self(u.target).contains(&t.target))).collect();
+                    if nearest.is_empty() { continue; }
+                    // highest tag per nearest commit
+                    let bases: Vec<[u64; 3]> = nearest.iter().map(|t| { let same: Vec<&&Tag> = tagged.iter().filter(|u| u.target == t.target).collect(); same.iter().map(|u| names.iter().find(|x| x.0 == u.name).unwrap().1).max().unwrap() }).collect();
+                    let wts: &[WorkTree] = if tags.len() == 1 { &[WorkTree::Clean, WorkTree::Untracked, WorkTree::ModifiedTracked] } else { &[WorkTree::Clean] };
+                    for &wt in wts {
+                        repo.reset_worktree();
+                        repo.set_worktree(wt, "f0");
+                        st.inc("git_states");
+                        let dir = repo.dir.to_string_lossy().to_string();
+                        let at_tag = nearest.iter().any(|t| t.target == tip);
+                        let mut clean_versions: Vec<(String, String)> = vec![];
+                        for fmt in ["semver", "pep440"] {
+                            st.inc("runs");
+                            let args = ["flow", "-C", &dir, "--output-format", fmt];
+                            let key = format!("ops {:?} dates {mode:?} tags {:?} head {b} worktree {wt:?} [{fmt}]", shape.ops, tags.iter().map(|t| format!("{}@{}", t.name, t.target)).collect::<Vec<_>>());
+                            let case = json!({"kind":"git-flow","ops":shape.ops,"tags":tags.iter().map(|t| format!("{}@{}", t.name, t.target)).collect::<Vec<_>>(),"head":b,"worktree":format!("{wt:?}"),"format":fmt});
+                            match zv::run_cli(&args, None) {
+                                Ok(Res::Ok(out)) => {
+                                    if at_tag && !wt.dirty() {
+                                        st.inc("clean_at_tag_cases");
+                                        let base = bases.iter().map(|x| format!("{}.{}.{}", x[0], x[1], x[2])).collect::<Vec<_>>();
+                                        if !base.contains(&out.split('+').next().unwrap_or("").to_string()) { ctx.violation("git_clean_checkout_not_exactly_tag", key, case, format!("printed {out}, tag is {base:?}")); }
+                                    } else {
+                                        st.inc("active_cases");
+                                        let ok = bases.iter().any(|x| cmp_to(fmt, &out, *x) == Some(Ordering::Greater) && cmp_to(fmt, &out, [x[0], x[1], x[2] + 1]) == Some(Ordering::Less));
+                                        if !ok { ctx.violation("git_version_outside_base_tag_window", key, case, format!("printed {out}; nearest final-release tag(s) {bases:?}")); }
+                                    }
+                                    if !wt.dirty() { clean_versions.push((fmt.to_string(), out)); }
+                                }
+                                other => ctx.violation("git_flow_failed", key, case, format!("{other:?}")),
+                            }
+                        }
+                        // commit step on the checked-out branch (clean tree, single nearest base): strictly greater
+                        if !wt.dirty() && bases.len() == 1 && !b.starts_with("release") {
+                            repo.reset_worktree();
+                            let mut cmd = std::process::Command::new("git");
+                            cmd.args(["commit", "-q", "--allow-empty", "-m", "step"]).current_dir(&repo.dir).env_clear().stdin(std::process::Stdio::null());
+                            for (k, v) in gitx::git_env() { cmd.env(k, v); }
+                            cmd.env("GIT_COMMITTER_DATE", "1600009999 +0000").env("GIT_AUTHOR_DATE", "1600009999 +0000");
+                            if cmd.output().map(|o| o.status.success()).unwrap_or(false) {
+                                for (fmt, v0) in &clean_versions {
+                                    st.inc("git_commit_steps");
+                                    let args = ["flow", "-C", &dir, "--output-format", fmt];
+                                    match zv::run_cli(&args, None) {
+                                        Ok(Res::Ok(v1)) => if cmp_versions(fmt, &v1, v0) != Some(Ordering::Greater) { ctx.violation("git_commit_step_not_increasing", format!("ops {:?} tags {:?} head {b} [{fmt}]", shape.ops, tags.iter().map(|t| format!("{}@{}", t.name, t.target)).collect::<Vec<_>>()), json!({"kind":"git-step"}), format!("{v0} then {v1} after one more commit")); },
+                                        other => ctx.violation("git_flow_failed", format!("after commit step on {b}"), json!({"kind":"git-step"}), format!("{other:?}")),
+                                    }
+                                }
+                                gitx::git(&repo.dir, &["update-ref", &format!("refs/heads/{b}"), &repo.shas[tip]], None);
+                                gitx::git(&repo.dir, &["reset", "-q", "--hard"], None);
+                            }
+                        }
+                    }
+                    repo.reset_worktree();
+                }
+            }
+            repo.remove();
+        }
+        st
+    }).reduce(Stats::default, Stats::merge);
+    let _ = std::fs::remove_dir_all(&root);
+    st
 }
